@@ -1,0 +1,10 @@
+//go:build verif
+// +build verif
+
+package components
+
+// Exported wrappers for the verification harness (build tag `verif`).
+
+func VerifCombine(in map[string][]string, keys []string) map[string][]string {
+	return combine(in, keys)
+}
